@@ -576,7 +576,7 @@ where
         let mut update_proofs = Vec::<UpdateProof>::new();
         for user_state in &user_data {
             let proof = self
-                .create_single_update_proof(akd_label, user_state)
+                .create_single_update_proof(&current_azks, akd_label, user_state)
                 .await?;
             update_proofs.push(proof);
         }
@@ -790,6 +790,7 @@ where
     #[cfg_attr(feature = "tracing_instrument", tracing::instrument(skip_all))]
     async fn create_single_update_proof(
         &self,
+        current_azks: &Azks,
         akd_label: &AkdLabel,
         user_state: &ValueState,
     ) -> Result<UpdateProof, AkdError> {
@@ -802,7 +803,9 @@ where
             .get_node_label::<TC>(akd_label, VersionFreshness::Fresh, version)
             .await?;
 
-        let current_azks = self.retrieve_azks().await?;
+        // `current_azks` is the epoch record the whole key-history request was started with:
+        // re-reading it here would let a publish that lands in the middle of the request put
+        // membership proofs of the NEXT epoch under the root hash of this one.
         let existence_vrf = self
             .vrf
             .get_label_proof::<TC>(akd_label, VersionFreshness::Fresh, version)
